@@ -7,6 +7,7 @@
 //!   replay    execute a replay file; exit 1 when it shows a violation (the expected one if given)
 //!   minimize  shrink a replay file while the same violation class persists
 mod common;
+mod disksim;
 mod engine;
 mod gen;
 mod graph;
@@ -34,12 +35,15 @@ pub enum Scn {
     Reg(regsim::RegScenario),
     #[serde(rename = "threadsim")]
     Thread(threadsim::ThreadScenario),
+    #[serde(rename = "disksim")]
+    Disk(disksim::DiskScenario),
 }
 
 fn generate(engine: &str, family: &str, prop: &str, tier: &str, seed: u64) -> Scn {
     match engine {
         "rendersim" => Scn::Render(rendersim::generate(seed, tier, prop)),
         "threadsim" => Scn::Thread(threadsim::generate(seed, tier, prop)),
+        "disksim" => Scn::Disk(disksim::generate(seed, tier, prop)),
         "regsim" => Scn::Reg(match family {
             "general" => reggen::generate(seed, tier, prop),
             "graph" => graph::generate(seed, tier, prop),
@@ -61,6 +65,7 @@ fn execute(s: &Scn, stats: &mut Stats) -> Outcome {
         Scn::Render(sc) => rendersim::execute(sc, stats),
         Scn::Reg(sc) => regsim::execute(sc, stats),
         Scn::Thread(sc) => threadsim::execute(sc, stats),
+        Scn::Disk(sc) => disksim::execute(sc, stats),
     }
 }
 
@@ -69,6 +74,7 @@ fn shrink(s: &Scn) -> Vec<Scn> {
         Scn::Render(sc) => rendersim::shrink_candidates(sc).into_iter().map(Scn::Render).collect(),
         Scn::Reg(sc) => regsim::shrink_candidates(sc).into_iter().map(Scn::Reg).collect(),
         Scn::Thread(sc) => threadsim::shrink_candidates(sc).into_iter().map(Scn::Thread).collect(),
+        Scn::Disk(sc) => disksim::shrink_candidates(sc).into_iter().map(Scn::Disk).collect(),
     }
 }
 
@@ -205,6 +211,14 @@ fn cmd_run(m: BTreeMap<String, String>) -> i32 {
         (WorkerReport { stats, distinct, distinct_named, violations, deferred, fingerprints: fps, runs }, out, offset)
     });
     let (report, out, offset) = report;
+    // the main distinct set can be millions of fingerprints: raw little-endian u64s, not JSON
+    let mut raw = Vec::with_capacity(report.distinct.len() * 8);
+    for h in &report.distinct {
+        raw.extend_from_slice(&h.to_le_bytes());
+    }
+    std::fs::write(format!("{}/worker-{}.distinct.bin", out, offset), raw).expect("write distinct set");
+    let mut report = report;
+    report.distinct.clear();
     let path = format!("{}/worker-{}.json", out, offset);
     std::fs::write(&path, serde_json::to_vec(&report).unwrap()).expect("write worker report");
     0
@@ -370,7 +384,7 @@ fn main() {
             0
         }
         "engines" => {
-            println!("rendersim regsim threadsim");
+            println!("rendersim regsim threadsim disksim");
             0
         }
         "dbg-gen" => {
